@@ -963,3 +963,262 @@ fn c13_poseidon_and_sponge() {
         if len > 0 && h.elements != [st[0], st[1], st[2], st[3]] { bad.push(format!("hash_no_pad differs from the overwrite-mode sponge for length {len}")); } }
     finish("c13_poseidon_and_sponge", cases, bad);
 }
+
+// ---- C20: conditional and cyclic recursion ----
+fn c20_inner(with_lookup: bool, x: u64) -> (CircuitData<F, PC, D>, ProofWithPublicInputs<F, PC, D>) {
+    use crate::gates::noop::NoopGate;
+    use std::sync::Arc;
+    let mut builder = CircuitBuilder::<F, D>::new(CircuitConfig::standard_recursion_config());
+    let mut pw = PartialWitness::new();
+    let t = builder.add_virtual_target();
+    builder.register_public_input(t);
+    pw.set_target(t, F::from_canonical_u64(x)).unwrap();
+    let sq = builder.square(t);
+    builder.register_public_input(sq);
+    if with_lookup {
+        let table: Vec<(u16, u16)> = (0..16u16).map(|i| (i, (i * 7 + 3) % 50)).collect();
+        let idx = builder.add_lookup_table_from_pairs(Arc::new(table));
+        let low = builder.add_virtual_target();
+        pw.set_target(low, F::from_canonical_u64(x % 16)).unwrap();
+        let out = builder.add_lookup_from_index(low, idx);
+        builder.register_public_input(out);
+    }
+    for _ in 0..64 { builder.add_gate(NoopGate, vec![]); }
+    let data = builder.build::<PC>();
+    let proof = data.prove(pw).expect("inner proof");
+    (data, proof)
+}
+
+#[test]
+fn c20_conditional() {
+    use crate::recursion::dummy_circuit::{dummy_circuit, dummy_proof};
+    let mut bad = Vec::new();
+    let mut cases = 0usize;
+    for with_lookup in [false, true] {
+        let tag = if with_lookup { "inner circuit with a lookup table" } else { "plain inner circuit" };
+        let (data, p0) = c20_inner(with_lookup, 5);
+        let (data_b, p1) = c20_inner(with_lookup, 11);
+        if data.verifier_only.circuit_digest != data_b.verifier_only.circuit_digest { bad.push(format!("{tag}: the same circuit built twice has different digests")); continue; }
+        // dummy proofs for this shape are valid for their dummy circuit (dummy_circuit refuses, by assertion, shapes it cannot reproduce,
+        // e.g. common data with lookup tables: then there is no dummy proof to speak of and the dummy scenarios are skipped)
+        let dummy = catch_unwind(AssertUnwindSafe(|| dummy_circuit::<F, PC, D>(&data.common))).ok();
+        let mut dproof_opt = None;
+        if let Some(dummy_data) = dummy.as_ref() {
+            cases += 1;
+            match catch_unwind(AssertUnwindSafe(|| dummy_proof::<F, PC, D>(dummy_data, hashbrown::HashMap::new()))) {
+                Ok(Ok(p)) => { if dummy_data.verify(p.clone()).is_err() { bad.push(format!("{tag}: dummy proof is not valid for its dummy circuit")); } dproof_opt = Some(p); }
+                _ => bad.push(format!("{tag}: dummy_proof failed")),
+            }
+            cases += 1;
+            let mut nz = hashbrown::HashMap::new(); nz.insert(0usize, F::from_canonical_u64(77)); nz.insert(1usize, F::NEG_ONE);
+            match catch_unwind(AssertUnwindSafe(|| dummy_proof::<F, PC, D>(dummy_data, nz))) {
+                Ok(Ok(p)) => { if p.public_inputs[0] != F::from_canonical_u64(77) || p.public_inputs[1] != F::NEG_ONE || dummy_data.verify(p).is_err() { bad.push(format!("{tag}: dummy proof with chosen public inputs is not valid / does not carry them")); } }
+                _ => bad.push(format!("{tag}: dummy_proof with chosen public inputs failed")),
+            }
+        } else if !with_lookup { bad.push(format!("{tag}: dummy_circuit panicked")); }
+        // one outer circuit, condition as a witness bit
+        let mut builder = CircuitBuilder::<F, D>::new(CircuitConfig::standard_recursion_config());
+        let pt0 = builder.add_virtual_proof_with_pis(&data.common);
+        let pt1 = builder.add_virtual_proof_with_pis(&data.common);
+        let vd0 = builder.add_virtual_verifier_data(data.common.config.fri_config.cap_height);
+        let vd1 = builder.add_virtual_verifier_data(data.common.config.fri_config.cap_height);
+        let b = builder.add_virtual_bool_target_safe();
+        builder.conditionally_verify_proof::<PC>(b, &pt0, &vd0, &pt1, &vd1, &data.common);
+        let outer = builder.build::<PC>();
+        let mut tampered = p1.clone();
+        tampered.proof.openings.wires[0] += FE::ONE;
+        let mut tampered_pi = p0.clone();
+        tampered_pi.public_inputs[1] += F::ONE;
+        let mut wrong_vd = data.verifier_only.clone();
+        let last = wrong_vd.constants_sigmas_cap.0.len() - 1;
+        wrong_vd.constants_sigmas_cap.0[last].elements[3] += F::ONE;
+        let mut wrong_digest = data.verifier_only.clone();
+        wrong_digest.circuit_digest.elements[0] += F::ONE;
+        // (name, condition, proof0, vd0, proof1, vd1, expected acceptance)
+        let good = &data.verifier_only;
+        let mut scen: Vec<(&str, bool, &ProofWithPublicInputs<F, PC, D>, &crate::plonk::circuit_data::VerifierOnlyCircuitData<PC, D>, &ProofWithPublicInputs<F, PC, D>, &crate::plonk::circuit_data::VerifierOnlyCircuitData<PC, D>, bool)> = vec![
+            ("both valid, condition true", true, &p0, good, &p1, good, true),
+            ("both valid, condition false", false, &p0, good, &p1, good, true),
+            ("selected valid, other one tampered, condition true", true, &p0, good, &tampered, good, true),
+            ("selected valid, other one with wrong verifier data, condition false", false, &p0, &wrong_vd, &p1, good, true),
+            ("selected proof tampered (opening), condition false", false, &p0, good, &tampered, good, false),
+            ("selected proof with altered public input, condition true", true, &tampered_pi, good, &p1, good, false),
+            ("selected proof checked against altered cap, condition true", true, &p0, &wrong_vd, &p1, good, false),
+            ("selected proof checked against altered digest, condition false", false, &p0, good, &p1, &wrong_digest, false),
+        ];
+        if let (Some(dummy_data), Some(dproof)) = (dummy.as_ref(), dproof_opt.as_ref()) {
+            let dvd = &dummy_data.verifier_only;
+            scen.push(("selected valid, other one a dummy proof, condition true", true, &p0, good, dproof, dvd, true));
+            scen.push(("selected dummy proof with dummy data, condition false", false, &p0, good, dproof, dvd, true));
+            scen.push(("selected dummy proof against the real verifier data, condition false", false, &p0, good, dproof, good, false));
+        }
+        for (name, cond, pa, va, pb, vb, expect) in scen {
+            cases += 1;
+            let r = catch_unwind(AssertUnwindSafe(|| -> anyhow::Result<()> {
+                let mut pw = PartialWitness::new();
+                pw.set_bool_target(b, cond)?;
+                pw.set_proof_with_pis_target(&pt0, pa)?;
+                pw.set_proof_with_pis_target(&pt1, pb)?;
+                pw.set_verifier_data_target(&vd0, va)?;
+                pw.set_verifier_data_target(&vd1, vb)?;
+                let proof = outer.prove(pw)?;
+                outer.verify(proof)
+            }));
+            let accepted = matches!(r, Ok(Ok(())));
+            if accepted != expect { bad.push(format!("{tag}: {name}: outer circuit {} (expected {})", if accepted { "ACCEPTED" } else { "not provable/accepted" }, if expect { "accepted" } else { "rejected" })); }
+        }
+    }
+    finish("c20_conditional", cases, bad);
+}
+
+#[test]
+fn c20_verifier_data_check() {
+    use crate::recursion::cyclic_recursion::check_cyclic_proof_verifier_data;
+    use crate::field::types::Sample;
+    let mut bad = Vec::new();
+    let mut cases = 0usize;
+    for cap_height in [0usize, 1, 2, 4] {
+        let mut config = CircuitConfig::standard_recursion_config();
+        config.fri_config.cap_height = cap_height;
+        let (data, proof) = circuit::<PC>(config, 4, 3, false);
+        let vd = data.verifier_only.clone();
+        let cap_len = 1usize << cap_height;
+        for lead in [0usize, 1, 9] {
+            let mut pis: Vec<F> = F::rand_vec(lead);
+            pis.extend(vd.circuit_digest.elements);
+            for h in &vd.constants_sigmas_cap.0 { pis.extend(h.elements); }
+            let mut p = proof.clone();
+            p.public_inputs = pis.clone();
+            cases += 1;
+            match catch_unwind(AssertUnwindSafe(|| check_cyclic_proof_verifier_data(&p, &vd, &data.common))) {
+                Ok(Ok(())) => {}
+                Ok(Err(_)) => bad.push(format!("cap height {cap_height}, {lead} leading inputs: matching embedded verifier data rejected")),
+                Err(_) => bad.push(format!("cap height {cap_height}, {lead} leading inputs: check PANICKED on matching data")),
+            }
+            // every single embedded element altered
+            for k in 0..4 + 4 * cap_len {
+                let mut p2 = p.clone();
+                p2.public_inputs[lead + k] += F::ONE;
+                cases += 1;
+                match catch_unwind(AssertUnwindSafe(|| check_cyclic_proof_verifier_data(&p2, &vd, &data.common))) {
+                    Ok(Ok(())) => bad.push(format!("cap height {cap_height}, {lead} leading inputs: embedded element {k} altered ({}), check still passes", if k < 4 { "digest" } else { "cap" })),
+                    Ok(Err(_)) => {}
+                    Err(_) => bad.push(format!("cap height {cap_height}: check PANICKED on altered element {k}")),
+                }
+            }
+            // every single element of the actual verifier data altered
+            for k in 0..4 + 4 * cap_len {
+                let mut vd2 = vd.clone();
+                if k < 4 { vd2.circuit_digest.elements[k] += F::ONE; } else { vd2.constants_sigmas_cap.0[(k - 4) / 4].elements[(k - 4) % 4] += F::ONE; }
+                cases += 1;
+                if let Ok(Ok(())) = catch_unwind(AssertUnwindSafe(|| check_cyclic_proof_verifier_data(&p, &vd2, &data.common))) { bad.push(format!("cap height {cap_height}: verifier data element {k} altered, check still passes")); }
+            }
+            // too few public inputs: clean error
+            for cut in [1usize, 4, 4 * cap_len, 3 + 4 * cap_len] {
+                if cut > lead { let mut p2 = p.clone(); p2.public_inputs.drain(0..cut.min(p2.public_inputs.len())); cases += 1;
+                    match catch_unwind(AssertUnwindSafe(|| check_cyclic_proof_verifier_data(&p2, &vd, &data.common))) { Ok(Ok(())) => bad.push(format!("cap height {cap_height}: {} public inputs accepted", p2.public_inputs.len())), Ok(Err(_)) => {}, Err(_) => bad.push(format!("cap height {cap_height}: check PANICKED on {} public inputs", p2.public_inputs.len())) } }
+            }
+        }
+    }
+    finish("c20_verifier_data_check", cases, bad);
+}
+
+// thorough tier: a cyclic hash chain (base case + 2 steps), and chains whose embedded verifier data differ from the circuit's own
+#[test]
+fn t20_cyclic_chain() {
+    use crate::gates::noop::NoopGate;
+    use crate::hash::hash_types::HashOutTarget;
+    use crate::recursion::cyclic_recursion::check_cyclic_proof_verifier_data;
+    use crate::recursion::dummy_circuit::cyclic_base_proof;
+    let mut bad = Vec::new();
+    let mut cases = 0usize;
+    // common data usable for recursion (same construction as the repository's own cyclic test)
+    let common_for_recursion = || {
+        let builder = CircuitBuilder::<F, D>::new(CircuitConfig::standard_recursion_config());
+        let data = builder.build::<PC>();
+        let mut builder = CircuitBuilder::<F, D>::new(CircuitConfig::standard_recursion_config());
+        let proof = builder.add_virtual_proof_with_pis(&data.common);
+        let vd = builder.add_virtual_verifier_data(data.common.config.fri_config.cap_height);
+        builder.verify_proof::<PC>(&proof, &vd, &data.common);
+        let data = builder.build::<PC>();
+        let mut builder = CircuitBuilder::<F, D>::new(CircuitConfig::standard_recursion_config());
+        let proof = builder.add_virtual_proof_with_pis(&data.common);
+        let vd = builder.add_virtual_verifier_data(data.common.config.fri_config.cap_height);
+        builder.verify_proof::<PC>(&proof, &vd, &data.common);
+        while builder.num_gates() < 1 << 12 { builder.add_gate(NoopGate, vec![]); }
+        builder.build::<PC>().common
+    };
+    let mut builder = CircuitBuilder::<F, D>::new(CircuitConfig::standard_recursion_config());
+    let one = builder.one();
+    let initial_hash_target = builder.add_virtual_hash();
+    builder.register_public_inputs(&initial_hash_target.elements);
+    let current_hash_in = builder.add_virtual_hash();
+    let current_hash_out = builder.hash_n_to_hash_no_pad::<PoseidonHash>(current_hash_in.elements.to_vec());
+    builder.register_public_inputs(&current_hash_out.elements);
+    let counter = builder.add_virtual_public_input();
+    let mut common_data = common_for_recursion();
+    let verifier_data_target = builder.add_verifier_data_public_inputs();
+    common_data.num_public_inputs = builder.num_public_inputs();
+    let condition = builder.add_virtual_bool_target_safe();
+    let inner = builder.add_virtual_proof_with_pis(&common_data);
+    let inner_pis = &inner.public_inputs;
+    let inner_initial_hash = HashOutTarget::try_from(&inner_pis[0..4]).unwrap();
+    let inner_latest_hash = HashOutTarget::try_from(&inner_pis[4..8]).unwrap();
+    let inner_counter = inner_pis[8];
+    builder.connect_hashes(initial_hash_target, inner_initial_hash);
+    let actual_hash_in = builder.select_hash(condition, inner_latest_hash, initial_hash_target);
+    builder.connect_hashes(current_hash_in, actual_hash_in);
+    let new_counter = builder.mul_add(condition.target, inner_counter, one);
+    builder.connect(counter, new_counter);
+    builder.conditionally_verify_cyclic_proof_or_dummy::<PC>(condition, &inner, &common_data).unwrap();
+    let cyc = builder.build::<PC>();
+    let real_vk = cyc.verifier_only.clone();
+    let initial_hash = [F::ZERO, F::ONE, F::TWO, F::from_canonical_usize(3)];
+    let initial_pis: hashbrown::HashMap<usize, F> = initial_hash.into_iter().enumerate().collect();
+    let step = |cond: bool, inner_proof: &ProofWithPublicInputs<F, PC, D>, vk: &crate::plonk::circuit_data::VerifierOnlyCircuitData<PC, D>| -> Result<ProofWithPublicInputs<F, PC, D>, String> {
+        match catch_unwind(AssertUnwindSafe(|| -> anyhow::Result<ProofWithPublicInputs<F, PC, D>> {
+            let mut pw = PartialWitness::new();
+            pw.set_bool_target(condition, cond)?;
+            pw.set_proof_with_pis_target::<PC, D>(&inner, inner_proof)?;
+            pw.set_verifier_data_target(&verifier_data_target, vk)?;
+            let p = cyc.prove(pw)?;
+            cyc.verify(p.clone())?;
+            Ok(p)
+        })) { Ok(Ok(p)) => Ok(p), Ok(Err(e)) => Err(format!("{e}")), Err(_) => Err("panicked".into()) }
+    };
+    // honest chain: base + 2 steps, each verifies, carries the circuit's verifier data, and the chain values are right
+    let base_inner = cyclic_base_proof(&common_data, &real_vk, initial_pis.clone());
+    let mut chain = Vec::new();
+    let mut prev = base_inner.clone();
+    for k in 0..3 {
+        cases += 1;
+        match step(k > 0, &prev, &real_vk) {
+            Ok(p) => {
+                if check_cyclic_proof_verifier_data(&p, &real_vk, &cyc.common).is_err() { bad.push(format!("honest chain step {k}: verifier-data check fails")); }
+                if p.public_inputs[8] != F::from_canonical_usize(k + 1) { bad.push(format!("honest chain step {k}: counter is {}", p.public_inputs[8])); }
+                let mut h = initial_hash; for _ in 0..=k { h = crate::hash::hashing::hash_n_to_hash_no_pad::<F, crate::hash::poseidon::PoseidonPermutation<F>>(&h).elements; }
+                if p.public_inputs[4..8] != h { bad.push(format!("honest chain step {k}: wrong chain tip")); }
+                prev = p.clone(); chain.push(p);
+            }
+            Err(e) => { bad.push(format!("honest chain step {k} not provable/accepted: {e}")); break; }
+        }
+    }
+    // embedded verifier data that differ in ONE element (digest element, first / middle / last cap element)
+    let cap_n = real_vk.constants_sigmas_cap.0.len();
+    for (what, slot) in [("digest element 0", 0usize), ("first cap entry", 4), ("cap entry 4", 4 + 4 * 4.min(cap_n - 1) + 1), ("last cap entry", 4 + 4 * (cap_n - 1) + 2)] {
+        let mut foreign = real_vk.clone();
+        if slot < 4 { foreign.circuit_digest.elements[slot] += F::ONE; } else { foreign.constants_sigmas_cap.0[(slot - 4) / 4].elements[(slot - 4) % 4] += F::ONE; }
+        // (a) base proof embeds the foreign data, outer exposes the real ones
+        cases += 1;
+        if step(false, &cyclic_base_proof(&common_data, &foreign, initial_pis.clone()), &real_vk).is_ok() { bad.push(format!("base proof embedding foreign verifier data ({what}) accepted under the real data")); }
+        // (b) step 1 exposes the foreign data (valid as a proof, refused by the out-of-circuit check); step 2 under the real data must fail
+        cases += 1;
+        if let Ok(p1) = step(false, &cyclic_base_proof(&common_data, &foreign, initial_pis.clone()), &foreign) {
+            if check_cyclic_proof_verifier_data(&p1, &real_vk, &cyc.common).is_ok() { bad.push(format!("step carrying foreign verifier data ({what}) passes the verifier-data check")); }
+            if let Ok(p2) = step(true, &p1, &real_vk) { if check_cyclic_proof_verifier_data(&p2, &real_vk, &cyc.common).is_ok() { bad.push(format!("chain over a step with foreign verifier data ({what}) accepted")); } }
+        }
+    }
+    // a tampered inner proof is not accepted when selected
+    if let Some(p) = chain.first() { let mut t = p.clone(); t.public_inputs[8] += F::ONE; cases += 1; if step(true, &t, &real_vk).is_ok() { bad.push("chain step over an inner proof with altered counter accepted".into()); } }
+    finish("t20_cyclic_chain", cases, bad);
+}
